@@ -1,5 +1,16 @@
 (* entry point: every evaluator module listed before this one in ORDER has registered itself *)
 open Driver
 let () =
-  if Array.length Sys.argv < 2 then (prerr_endline "usage: driver <casefile>..."; exit 2);
-  for i = 1 to Array.length Sys.argv - 1 do run_file Sys.argv.(i) done
+  let files = ref [] in
+  let i = ref 1 in
+  while !i < Array.length Sys.argv do
+    (if Sys.argv.(!i) = "--shard" && !i + 1 < Array.length Sys.argv then begin
+       (match String.split_on_char '/' Sys.argv.(!i + 1) with
+        | [ a; b ] -> shard := (int_of_string a, int_of_string b)
+        | _ -> prerr_endline "bad --shard"; exit 2);
+       incr i
+     end else files := Sys.argv.(!i) :: !files);
+    incr i
+  done;
+  if !files = [] then (prerr_endline "usage: driver [--shard i/n] <casefile>..."; exit 2);
+  List.iter run_file (List.rev !files)
